@@ -4,6 +4,7 @@ CONSTANTS
   GenDepth = 0
   DrainFrom = 0
   BigLens = {65535, 65536, 70000}
+  PipeLens = {4070, 4071, 4072, 4073, 4074, 4075, 4076, 4077, 4078, 4079, 4080, 4081, 4082, 4083, 4084, 4085, 4086, 4087, 4088, 4089, 4090, 4091, 4092, 4093, 4094, 4095, 4096, 4097, 4098, 4099, 4100, 8176, 8177, 8178, 8179, 8180, 8181, 8182, 8183, 8184, 8185, 8186}
   Full = FALSE
 INVARIANT Emit
 CHECK_DEADLOCK FALSE
